@@ -461,6 +461,135 @@ let cmd_damage (ps : int) (image : string) (mutfile : string) : unit =
                   Printf.printf "%d ok %s check:%s\n" i (fnv64_string dump) inv))
     | _ -> ()) (read_lines mutfile)
 
+(* ---------- thread-level transition system vs the scheduled library run (C04 / C09) ---------- *)
+let rec int_of_nat (n : Datatypes.nat) : int = match n with Datatypes.O -> 0 | Datatypes.S m -> 1 + int_of_nat m
+
+let yield_of_pc (p : Conc.pc) : string =
+  match p with
+  | Conc.RLocked | Conc.WLocked -> "begin:after_lock"
+  | Conc.RFl | Conc.WFl -> "begin:after_freelist"
+  | Conc.RHdr | Conc.WHdr -> "begin:after_meta"
+  | Conc.RReg | Conc.WReg -> "begin:after_register"
+  | Conc.RMid -> "client:mid" | Conc.REnd -> "client:end"
+  | Conc.CGrow1 -> "resize:before_wlock" | Conc.CGrow2 -> "resize:after_wlock" | Conc.CGrow3 -> "resize:after_remap"
+  | Conc.CData -> "commit:before_data" | Conc.CHeaderNext -> "commit:before_header" | Conc.CSyncNext -> "commit:before_sync"
+  | Conc.CPublishNext -> "commit:before_publish" | Conc.CPublished -> "commit:after_publish"
+  | Conc.RStart | Conc.WStart -> "start" | Conc.RDone | Conc.WDone -> "done"
+
+let cmd_conc (file : string) : unit =
+  let lines = read_lines file in
+  let atomic = ref true and yields = ref ["client:mid"; "client:end"] and kinds = ref [] and inits = ref 0 in
+  L.iter (fun l ->
+    match L.filter (fun x -> x <> "") (S.split_on_char ' ' (S.trim l)) with
+    | ["atomic"; v] -> atomic := (v = "1")
+    | "yield" :: ys -> yields := ys @ !yields
+    | ["thread"; k] -> kinds := !kinds @ [k]
+    | "init" :: "writer" :: "committed" :: _ -> incr inits
+    | _ -> ()) lines;
+  let ths = L.map (fun k -> if k = "r" then Conc.reader0 else Conc.writer0 false) !kinds in
+  let st = ref (Conc.init (nat_of_int !inits) ths) in
+  let nsteps = ref 0 in
+  let stop = ref false in
+  let mismatch msg = if not !stop then (Printf.printf "MISMATCH %s\n" msg; stop := true) in
+  let thread_of i = L.nth (!st).Conc.threads i in
+  let set_thread i t =
+    st := { !st with Conc.threads = L.mapi (fun j x -> if j = i then t else x) (!st).Conc.threads } in
+  (* advance thread i to its next yield point in the yield set *)
+  let advance (i : int) (observed : string) : string =
+    let rec go first =
+      let t = thread_of i in
+      (* a writer's commit grows the file iff the library says so: resolved by observation *)
+      if t.Conc.t_pc = Conc.WReg && not t.Conc.t_grows && S.length observed >= 7 && S.sub observed 0 7 = "resize:" then
+        set_thread i { t with Conc.t_grows = true };
+      match Conc.step !atomic !st (nat_of_int i) with
+      | None -> if Conc.finished (thread_of i).Conc.t_pc then "done" else "blocked"
+      | Some s' ->
+          st := s';
+          let p = (thread_of i).Conc.t_pc in
+          if Conc.finished p then "done"
+          else if L.mem (yield_of_pc p) !yields then yield_of_pc p
+          else go false in
+    go true in
+  let writer_waiting () = L.exists (fun t -> t.Conc.t_pc = Conc.CGrow1) (!st).Conc.threads in
+  (* threads seen blocked inside the library run on by themselves once the lock is released; until the
+     controller polls them again the lock bits cannot be compared *)
+  let blocked : int list ref = ref [] in
+  L.iter (fun l ->
+    if !stop then () else
+    let w = L.filter (fun x -> x <> "") (S.split_on_char ' ' (S.trim l)) in
+    match w with
+    | "step" :: _ :: kind :: ti :: rest when kind = "grant" || kind = "poll" ->
+        incr nsteps;
+        let i = int_of_string ti in
+        let rec after_arrow l = match l with "->" :: x :: r -> (x, r) | _ :: r -> after_arrow r | [] -> ("", []) in
+        let (obs, tail) = after_arrow rest in
+        if obs = "already-done" then () else begin
+          let obs_name = match S.index_opt obs '[' with Some k -> S.sub obs 0 k | None -> obs in
+          let obs_nums = match S.index_opt obs '[' with
+            | Some k -> L.filter (fun x -> x <> "") (S.split_on_char ',' (S.sub obs (k + 1) (S.length obs - k - 2)))
+            | None -> [] in
+          (* a thread that was blocked inside the library has run on by itself to its next yield point
+             (the `from` of this grant): let the model catch up first *)
+          (match rest with
+           | "from" :: fr :: _ ->
+               let fr_name = match S.index_opt fr '[' with Some k -> S.sub fr 0 k | None -> fr in
+               if L.mem i !blocked && yield_of_pc (thread_of i).Conc.t_pc <> fr_name then begin
+                 let m0 = advance i fr_name in
+                 if m0 <> fr_name then mismatch (Printf.sprintf "line `%s`: catching up thread %d to `%s`, model reaches `%s`" l i fr_name m0)
+               end
+           | _ -> ());
+          let saved = !st in
+          let pc_before = (thread_of i).Conc.t_pc in
+          let m = advance i obs_name in
+          blocked := L.filter (fun x -> x <> i) !blocked;
+          if obs_name = "blocked" then blocked := i :: !blocked;
+          if m <> obs_name then begin
+            (* fairness of the RwLock is not modelled: a reader may be kept out while a writer waits for the write lock *)
+            if obs_name = "blocked" && pc_before = Conc.RStart && (st := saved; writer_waiting ()) then ()
+            else if obs_name = "blocked" && pc_before = Conc.WStart
+                    && L.exists (fun j -> j <> i && (L.nth saved.Conc.threads j).Conc.t_pc = Conc.WStart) !blocked then begin
+              (* several writers were waiting for the writer mutex: another blocked one got it *)
+              st := saved;
+              let j = L.find (fun j -> j <> i && (thread_of j).Conc.t_pc = Conc.WStart) !blocked in
+              ignore (advance j "begin:after_lock");
+              blocked := i :: !blocked;
+              (match Conc.step !atomic !st (nat_of_int i) with
+               | None -> ()
+               | Some _ -> mismatch (Printf.sprintf "line `%s`: model says thread %d is enabled" l i))
+            end
+            else mismatch (Printf.sprintf "line `%s`: model says thread %d reaches `%s`" l i m)
+          end else begin
+            let t = thread_of i in
+            let hdr = int_of_nat t.Conc.t_hdr in
+            (match obs_name, obs_nums with
+             | "begin:after_register", [_; tx] ->
+                 let want = if t.Conc.t_writer then hdr + 1 else hdr in
+                 if int_of_string tx <> want then mismatch (Printf.sprintf "line `%s`: model tx id %d" l want)
+             | "commit:before_header", [tx; _] ->
+                 if int_of_string tx <> hdr + 1 then mismatch (Printf.sprintf "line `%s`: model commits tx %d" l (hdr + 1))
+             | _ -> ());
+            (match tail with
+             | lk :: _ when S.length lk > 8 && S.sub lk 0 6 = "locks=" && !blocked = [] ->
+                 let bits = S.sub lk 6 (S.length lk - 6) in
+                 let file_free = (!st).Conc.fileM = None in
+                 let wr_avail = (!st).Conc.rd = [] && (!st).Conc.wr = None in
+                 if (S.get bits 0 = '1') <> file_free then mismatch (Printf.sprintf "line `%s`: model writer mutex %s" l (if file_free then "free" else "held"));
+                 if (S.get bits 1 = '1') <> wr_avail then mismatch (Printf.sprintf "line `%s`: model mmap write lock %s" l (if wr_avail then "available" else "unavailable"))
+             | _ -> ())
+          end
+        end
+    | "event" :: _ :: name :: payload :: _ when name = "tx_begin" || name = "tx_end_ro" ->
+        let nums = L.map int_of_string (L.filter (fun x -> x <> "") (S.split_on_char ',' payload)) in
+        let ro = (match name, nums with
+                  | "tx_begin", (_ :: _ :: n :: r) -> L.filteri (fun k _ -> k < n) r
+                  | "tx_end_ro", (_ :: n :: r) -> L.filteri (fun k _ -> k < n) r
+                  | _ -> []) in
+        let model = L.sort compare (L.map int_of_nat (!st).Conc.readers) in
+        if L.sort compare ro <> model then
+          mismatch (Printf.sprintf "line `%s`: registered readers in the model: [%s]" l (S.concat "," (L.map string_of_int model)))
+    | _ -> ()) lines;
+  Printf.printf "done steps=%d snapshots_ok=%b\n" !nsteps (Conc.snapshots_okb !st)
+
 let () =
   match Array.to_list Sys.argv with
   | _ :: "spec" :: hist :: fout :: eout :: _ -> cmd_spec hist fout eout
@@ -469,4 +598,5 @@ let () =
   | _ :: "cursor" :: ps :: file :: ops :: _ -> cmd_cursor (int_of_string ps) file ops
   | _ :: "pl" :: ps :: evs :: _ -> cmd_pl (int_of_string ps) evs
   | _ :: "damage" :: ps :: image :: muts :: _ -> cmd_damage (int_of_string ps) image muts
-  | _ -> prerr_endline "usage: monitor spec|select|inv|cursor|pl|damage ..."; exit 2
+  | _ :: "conc" :: file :: _ -> cmd_conc file
+  | _ -> prerr_endline "usage: monitor spec|select|inv|cursor|pl|damage|conc ..."; exit 2
